@@ -33,3 +33,14 @@ func VerifResetGlobals() {
 func VerifIsPruning() bool {
 	return isPruning()
 }
+
+// VerifSaveGate, when set, is called by Tree.Save after every new node has been put into the write
+// batch (which also clears the child pointers of the in-memory tree) and before the batch is written
+// to the database. A harness blocks inside it to hold a commit at that point while it issues reads.
+var VerifSaveGate func(blockHeight int64)
+
+func verifSaveGate(t *Tree) {
+	if g := VerifSaveGate; g != nil {
+		g(t.blockHeight)
+	}
+}
